@@ -89,6 +89,8 @@ def get_index_of_closing_parenthesis(string, opening_parenthesis_offset=0):
                 literal_indicator = 0
             elif literal_indicator == 3 and character == "`":
                 literal_indicator = 0
+            elif literal_indicator == 4 and character == "]":
+                literal_indicator = 0
 
         else:
 
@@ -145,6 +147,9 @@ def get_index_of_closing_parenthesis(string, opening_parenthesis_offset=0):
 
             elif character == "`":
                 literal_indicator = 3
+
+            elif character == "[":
+                literal_indicator = 4
 
     # Check to make sure the closing parenthesis was found
     if (
